@@ -46,18 +46,19 @@ type rec struct {
 }
 
 type param struct {
-	Recs      []rec  `json:"records"`
-	Workers   int    `json:"workers"`
-	Chunks    int    `json:"chunks"`
-	Batch     int    `json:"batch"`
-	NoSingle  bool   `json:"no_singleton"`
-	Policy    int    `json:"policy"`
-	Bound     int    `json:"bound"`
-	Choices   []int  `json:"choices,omitempty"`
-	WithCateg bool   `json:"with_category"`
-	Categ2    bool   `json:"two_categories,omitempty"` // -c cat -c cat2 (needs WithCateg)
-	MaxExec   int64  `json:"max_exec,omitempty"`       // execution cap of the exploration (0: 60000)
-	Family    string `json:"family,omitempty"`         // "" = general enumeration, "cross-worker" = wide jobs
+	Recs      []rec    `json:"records"`
+	Workers   int      `json:"workers"`
+	Chunks    int      `json:"chunks"`
+	Batch     int      `json:"batch"`
+	NoSingle  bool     `json:"no_singleton"`
+	Policy    int      `json:"policy"`
+	Bound     int      `json:"bound"`
+	Choices   []int    `json:"choices,omitempty"`
+	WithCateg bool     `json:"with_category"`
+	Categ2    bool     `json:"two_categories,omitempty"` // -c cat -c cat2 (needs WithCateg)
+	MaxExec   int64    `json:"max_exec,omitempty"`       // execution cap of the exploration (0: 60000)
+	Family    string   `json:"family,omitempty"`         // "" = general enumeration, "cross-worker" = wide jobs
+	Conflicts []string `json:"conflicts,omitempty"`      // racy-access sites that were scheduling points (replay)
 }
 
 // codedChunks: number of hash chunks (real obiseq.HashClassifier of the tree under test) that hold more
@@ -268,7 +269,7 @@ func TestVerifC06A(t *testing.T) {
 		if err := json.Unmarshal(rc, &p); err != nil {
 			t.Fatal(err)
 		}
-		x := vsched.RunOncePolicy(p.Policy, p.Choices, 30000, nil, nil, func(x *vsched.Exec) { x.Obs = body(p) })
+		x := vsched.RunOncePolicy(p.Policy, p.Choices, 30000, vsched.ConflictSet(p.Conflicts), nil, func(x *vsched.Exec) { x.Obs = body(p) })
 		msg := check(p)(x)
 		r.Eval(1)
 		if msg == "" || strings.Contains(msg, "replay divergence") {
@@ -434,6 +435,7 @@ func TestVerifC06A(t *testing.T) {
 			seen[key] = true
 			q := p
 			q.Choices = v.Choices
+			q.Conflicts = v.Conflicts
 			r.Violate(key, fmt.Sprintf("records=%v workers=%d chunks=%d batch=%d nosingleton=%v category=%v policy=%d delay bound=%d schedule=%v: %s", p.Recs, p.Workers, p.Chunks, p.Batch, p.NoSingle, p.WithCateg, p.Policy, p.Bound, v.Choices, parts[1]), q)
 		}
 	}
